@@ -276,6 +276,30 @@ def conflict_table_check(inst, singleton_keys, known_keys) -> Optional[str]:
         ls = _lists(out)
         new_table = dict(_pos(r) for r in ls['T'])
         if op.startswith('ev '):
+            # LocalIsJoin (the hypothesis of `cluster_convergence_partial`), observed on the real decider: local
+            # processing announces exactly what it changes — every run whose status differs afterwards is in the
+            # notification with exactly its new status, what is announced is what holds afterwards, and runs
+            # that are not mentioned are untouched.
+            said: Dict[str, Tuple] = {}
+            for r in ls['U']:
+                rid, st = _pos(r)
+                said[rid] = max(said.get(rid, BOT), st)
+            for r in ls['H']:
+                said[r.split('|')[0]] = max(said.get(r.split('|')[0], BOT), HALTED)
+            for r in ls['C']:
+                said[r.split('|')[0]] = COMPLETED
+            for rid in set(table) | set(new_table) | set(said):
+                before = finished.get(rid) or table.get(rid) or BOT
+                after_fin = COMPLETED if said.get(rid) == COMPLETED else (HALTED if said.get(rid) == HALTED and before < HALTED else None)
+                after = finished.get(rid) if (finished.get(rid) and not after_fin) else (after_fin or new_table.get(rid) or BOT)
+                expect = max(before, said.get(rid, BOT))
+                if rid in new_table and (after_fin or finished.get(rid)):
+                    if after_fin:
+                        return f"{op}: run {rid} announced finished by local processing but still active"
+                    continue        # zombie of an earlier defect: reported by the resurrected-run oracle
+                if after != expect:
+                    return (f"{op}: local-is-join fails for run {rid}: status before {before}, notification says "
+                            f"{said.get(rid, BOT)}, status after {after}")
             for r in ls['C']:
                 finished[r.split('|')[0]] = COMPLETED
             for r in ls['H']:
